@@ -51,11 +51,13 @@ fn take<'a>(res: Result<ScanResult<'a>, (boreal::scanner::ScanError, ScanResult<
     }
 }
 
-fn scan<'a>(s: &'a boreal::Scanner, case: &Value, input: &[u8]) -> (Option<String>, ScanResult<'a>) {
+/// Scan the input placed at an address congruent to `shift` modulo 16 (every region buffer for a fragmented layout).
+fn scan<'a>(s: &'a boreal::Scanner, case: &Value, input: &[u8], shift: usize) -> (Option<String>, ScanResult<'a>) {
     if case["layout"].is_array() {
-        take(s.scan_fragmented(modval::Layout::new(input, &case["layout"])))
+        take(s.scan_fragmented(modval::Layout::with_shift(input, &case["layout"], shift)))
     } else {
-        take(s.scan_mem(input))
+        let (buf, pad) = modval::place(input, shift);
+        take(s.scan_mem(&buf[pad..pad + input.len()]))
     }
 }
 
@@ -100,7 +102,7 @@ pub fn run(case: &Value) -> Value {
     let mut scanner = c.finalize();
     scanner.set_scan_params(ScanParams::default().process_memory(get_bool(case, "process_memory")));
 
-    let (err1, r1) = scan(&scanner, case, &input);
+    let (err1, r1) = scan(&scanner, case, &input, 0);
     let logs1: Vec<String> = std::mem::take(&mut *logs.lock().unwrap());
     let mut dumps = Map::new();
     let mut hash1 = Map::new();
@@ -137,7 +139,7 @@ pub fn run(case: &Value) -> Value {
     }
     let matched1: Vec<String> = r1.rules.iter().map(|r| r.name.to_string()).collect();
     drop(r1);
-    let (err2, r2) = scan(&scanner, case, &input);
+    let (err2, r2) = scan(&scanner, case, &input, 0);
     let mut hash2 = Map::new();
     for m in &r2.modules {
         let name = m.module.get_name();
@@ -147,6 +149,27 @@ pub fn run(case: &Value) -> Value {
     }
     let matched2: Vec<String> = r2.rules.iter().map(|r| r.name.to_string()).collect();
     let logs2: Vec<String> = std::mem::take(&mut *logs.lock().unwrap());
+    drop(r2);
+    // the same bytes at other alignments
+    let mut hash_shifts = Map::new();
+    let mut shift_diff = false;
+    for sh in case["shifts"].as_array().map(|v| v.as_slice()).unwrap_or(&[]) {
+        let sh = sh.as_u64().unwrap_or(0) as usize;
+        let (errs, rs) = scan(&scanner, case, &input, sh);
+        let mut h = Map::new();
+        for m in &rs.modules {
+            let name = m.module.get_name();
+            if mods.contains(&name) {
+                h.insert(name.into(), json!(modval::canon_hash(&m.dynamic_values).to_string()));
+            }
+        }
+        let matched: Vec<String> = rs.rules.iter().map(|r| r.name.to_string()).collect();
+        let logss: Vec<String> = std::mem::take(&mut *logs.lock().unwrap());
+        if h != hash1 || matched != matched1 || logss != logs1 || errs != err1 {
+            shift_diff = true;
+        }
+        hash_shifts.insert(sh.to_string(), Value::Object(h));
+    }
     // attribute logs to probes by tag
     for (i, p) in case["probes"].as_array().map(|v| v.as_slice()).unwrap_or(&[]).iter().enumerate() {
         let tag = format!("{}=", get_str(p, "tag"));
@@ -158,7 +181,8 @@ pub fn run(case: &Value) -> Value {
     }
     json!({"dumps": dumps, "hash1": hash1, "hash2": hash2, "lens": lens, "nonconf": nonconf, "probes": probes_out,
            "size": input.len(), "nodes": nodes, "error": err1, "error2": err2,
-           "same_rules": matched1 == matched2, "same_logs": logs1 == logs2})
+           "same_rules": matched1 == matched2, "same_logs": logs1 == logs2, "hash_shifts": hash_shifts,
+           "shift_diff": shift_diff})
 }
 
 fn main() {
